@@ -170,6 +170,11 @@ func verifC10MemSequences() {
 	init := verifNondetBytes("init", int(BlockSize))
 	v1 := verifNondetBytes("v1", int(BlockSize))
 	v2 := verifNondetBytes("v2", int(BlockSize))
+	v3 := v2
+	deep := verifTier() > 0 // thorough: a third write and a third read
+	if deep {
+		v3 = verifNondetBytes("v3", int(BlockSize))
+	}
 	d.Write(0, init)
 	var sz uint64
 	var wg sync.WaitGroup
@@ -178,6 +183,9 @@ func verifC10MemSequences() {
 	go func() {
 		d.Write(0, v1)
 		d.Write(0, v2)
+		if deep {
+			d.Write(0, v3)
+		}
 		wg.Done()
 	}()
 	go func() {
@@ -187,15 +195,28 @@ func verifC10MemSequences() {
 	r1 := d.Read(0)
 	r2 := verifNondetBytes("dirty", int(BlockSize))
 	d.ReadTo(0, r2)
+	r3 := r2
+	if deep {
+		r3 = d.Read(0)
+	}
 	wg.Wait()
 	verifRaceDetect(false)
 	verifAssert("seq/no-data-race", verifRaces() == 0)
 	verifAssert("seq/size", sz == 2)
-	i1, a1, b1 := verifBytesEq(r1, init), verifBytesEq(r1, v1), verifBytesEq(r1, v2)
-	i2, a2, b2 := verifBytesEq(r2, init), verifBytesEq(r2, v1), verifBytesEq(r2, v2)
-	ok := verifOr(verifAnd(i1, verifOr(i2, verifOr(a2, b2))), verifOr(verifAnd(a1, verifOr(a2, b2)), verifAnd(b1, b2)))
+	// ranks 0..3 of init, v1, v2, v3 in the single total order of the writes; a read returns one of
+	// them and a later read never returns an earlier one (equal contents make several ranks possible:
+	// the disjunction ranges over all of them)
+	vals := [][]byte{init, v1, v2, v3}
+	ok := false
+	for a := 0; a < len(vals); a++ {
+		for b := a; b < len(vals); b++ {
+			for c := b; c < len(vals); c++ {
+				ok = verifOr(ok, verifAnd(verifBytesEq(r1, vals[a]), verifAnd(verifBytesEq(r2, vals[b]), verifBytesEq(r3, vals[c]))))
+			}
+		}
+	}
 	verifAssert("seq/reads-follow-one-total-order", ok)
-	verifAssert("seq/final-is-the-last-write", verifBytesEq(d.Read(0), v2))
+	verifAssert("seq/final-is-the-last-write", verifBytesEq(d.Read(0), v3))
 	verifCover("c10/sequences")
 }
 
